@@ -85,6 +85,7 @@ class Framer(tasking.Tasker):
 
         self.main = None  #when aux framer, frame that is running this aux
         self.original = True  # as in not a clone
+        self.sources = ()  # names of the originals this clone and the clones it is in were cloned from
         self.insular = False  # as in a clone that is visible only to the main framer
         self.razeable = False  # as in a clone that can be explicitly razed at run time
         self.done = True #when aux or slave framer, completion state, set to False on enterAll
@@ -296,6 +297,13 @@ class Framer(tasking.Tasker):
                                      human=human,
                                      count=count)
 
+            if original.name == self.name or original.name in self.sources:
+                raise excepting.ResolveError("Recursive clone of original",
+                                             name=original.name,
+                                             value=self.name,
+                                             human=human,
+                                             count=count )
+
             if tag in self.auxes:  # tag must be unique to framer
                 raise excepting.ResolveError("Clone tag already in use",
                                              name=self.name,
@@ -304,6 +312,7 @@ class Framer(tasking.Tasker):
                                              count=count )
             name = "_".join((self.surname, tag))  # replace name with full name
             clone = original.clone(name=name, tag=tag, schedule=schedule)
+            clone.sources = self.sources + (original.name, )
             self.auxes[tag] = clone
 
             # inode is new (aux verb clone via)  clone.inode is old (framer moot via)
